@@ -321,6 +321,9 @@ type Cond struct {
 	V   ssa.Value
 	Val bool
 	If  *ssa.If
+	// LoopExit: the condition is the exit test of a loop (the If sits on a cycle and the taken
+	// successor leaves that cycle). Such conditions say "the loop ran to completion".
+	LoopExit bool
 }
 
 // Guards returns the branch conditions that are known on entry to block b: for every If whose
@@ -342,9 +345,9 @@ func Guards(b *ssa.BasicBlock) []Cond {
 		td := t.Dominates(b) && len(t.Preds) == 1
 		fd := f.Dominates(b) && len(f.Preds) == 1
 		if td && !fd {
-			out = append(out, Cond{ifi.Cond, true, ifi})
+			out = append(out, Cond{ifi.Cond, true, ifi, InLoop(d) && !BlockReaches(t, d)})
 		} else if fd && !td {
-			out = append(out, Cond{ifi.Cond, false, ifi})
+			out = append(out, Cond{ifi.Cond, false, ifi, InLoop(d) && !BlockReaches(f, d)})
 		}
 	}
 	return out
@@ -363,6 +366,9 @@ type Atom struct {
 func Atoms(b *ssa.BasicBlock) []Atom {
 	var out []Atom
 	for _, g := range Guards(b) {
+		if g.LoopExit {
+			continue
+		}
 		out = append(out, condAtoms(g.V, g.Val)...)
 	}
 	return out
@@ -604,4 +610,80 @@ func Returns(fn *ssa.Function) []*ssa.Return {
 		}
 	})
 	return out
+}
+
+// Site is a call site inside a module function.
+type Site struct {
+	Fn   *ssa.Function
+	Call ssa.CallInstruction
+}
+
+// SitesOf returns every call site in the module's source functions whose callee name satisfies
+// pred (static callees and interface invokes).
+func (c *Ctx) SitesOf(pred func(name string) bool) []Site {
+	var out []Site
+	for _, f := range c.ModuleFuncs() {
+		for _, ci := range Calls(f, func(n string, _ ssa.CallInstruction) bool { return pred(n) }) {
+			out = append(out, Site{f, ci})
+			c.CallSites++
+		}
+	}
+	return out
+}
+
+// SitesNamed returns call sites of callees with exactly one of the given names.
+func (c *Ctx) SitesNamed(names ...string) []Site {
+	return c.SitesOf(func(n string) bool {
+		for _, x := range names {
+			if n == x {
+				return true
+			}
+		}
+		return false
+	})
+}
+
+// KnownTrue reports whether value v (a bool) is known true on entry to block b.
+func KnownTrue(b *ssa.BasicBlock, v ssa.Value) bool { return knownBool(b, v, true) }
+
+// KnownFalse reports whether value v (a bool) is known false on entry to block b.
+func KnownFalse(b *ssa.BasicBlock, v ssa.Value) bool { return knownBool(b, v, false) }
+
+func knownBool(b *ssa.BasicBlock, v ssa.Value, want bool) bool {
+	for _, a := range Atoms(b) {
+		if a.Op == token.ILLEGAL && a.X == v && a.Val == want {
+			return true
+		}
+	}
+	return false
+}
+
+// SameVar: a and b denote the same program variable at their respective points: identical SSA
+// value, loads of the same cell, or equal pure access paths.
+func SameVar(a, b ssa.Value) bool {
+	a, b = Strip(a), Strip(b)
+	if a == b {
+		return true
+	}
+	ua, oka := a.(*ssa.UnOp)
+	ub, okb := b.(*ssa.UnOp)
+	if oka && okb && ua.Op == token.MUL && ub.Op == token.MUL && ua.X == ub.X {
+		return true
+	}
+	// &x vs load x
+	if oka && ua.Op == token.MUL && ua.X == b {
+		return true
+	}
+	if okb && ub.Op == token.MUL && ub.X == a {
+		return true
+	}
+	return SameValue(a, b)
+}
+
+// EnclosingName renders the function with its outermost named parent: "core/task.(*schedulerState).resourceOffers$1$2" -> keeps as is.
+func OutermostParent(f *ssa.Function) *ssa.Function {
+	for f.Parent() != nil {
+		f = f.Parent()
+	}
+	return f
 }
